@@ -54,7 +54,7 @@ def main():
         hdir = os.path.dirname(os.path.abspath(__file__)) + os.sep
         hframes = [f for f in frames if os.path.realpath(f.filename).startswith(hdir)]
         if hframes and os.path.basename(hframes[-1].filename) == pid.lower() + '.py' \
-                and isinstance(exc, (KeyError, IndexError, AttributeError, TypeError, ValueError, AssertionError, ZeroDivisionError)) \
+                and isinstance(exc, (KeyError, IndexError, AttributeError, TypeError, ValueError, AssertionError, ZeroDivisionError, RuntimeError)) \
                 and st.get('make_ok') and st.get('driver_ok', True):
             last = hframes[-1]
             ck.violation('the check could not read the implementation\'s answer: %s: %s at harness/%s:%d (%s); the answer does '
